@@ -119,7 +119,7 @@ def _case_from_struct(v):
 
 def _strategy(tier):
     big = tier == "thorough"
-    return st.tuples(G.url_structs(max_segments=6 if big else 4, max_items=6 if big else 4),
+    return st.tuples(G.url_structs(max_segments=6 if big else 4, max_items=6 if big else 4, host_kw={"ip": True, "rootdot": True}),
                      st.booleans(), st.booleans(), st.sampled_from(["https", "http", "https", "ftp"]))
 
 
